@@ -151,6 +151,79 @@ def m4_normal_form(a: int, b: int, nw: bool) -> bool:
     return t == s and mistletoe.markdown(t) == mistletoe.markdown(s)
 
 
+# ---------------------------------------------------------------------------------------- M5
+# non-canonical spellings: the SAME symbolic character at two or three places of a construct's spelling
+SP = ' -*_=#>+`~:|a1.)'
+SPELLINGS = {
+    'rule-under-para': 'a\n-{0}-{0}-\n', 'rule-alone': 'a\n\n*{0}*{0}*\n', 'atx-closing': '#{0}a{0}#\n', 'setext-underline': 'a\n{0}=={0}\n',
+    'bullet-spacing': '-{0}a\n-{0}b\n', 'ordered-spacing': '1.{0}a\n2.{0}b\n', 'quote-spacing': '>{0}a\n>{0}b\n', 'fence-info': '```{0}x{0}\ncode\n```\n',
+    'fence-indent': '{0}```\nx\n{0}```\n', 'table-delim': 'a|b\n{0}-|-{0}\nc|d\n', 'def-spacing': '[l]:{0}/u{0}"t"\n\n[l]\n', 'hard-break': 'a{0}{0}\nb\n',
+    'code-span-pad': '`{0}a{0}` b\n', 'link-spacing': '[a]({0}/u{0}"t"{0})\n', 'para-indent': '{0}{0}a\nb\n', 'lazy-indent': '> a\n{0}{0}b\n',
+    'item-indent': '- a\n\n{0}{0}b\n', 'emphasis-run': '{0}{0}a{0} b{0}\n', 'heading-hashes': '##{0} a {0}##\n', 'item-rule': '- a\n  -{0}-{0}-\n',
+}
+
+
+def round_trip_ok(s, nw, L=None):
+    """clauses (a) and (b) of the property for one document: same HTML and link definitions; a second rendering is the identity"""
+    import mistletoe
+    from mistletoe import Document
+    from mistletoe.html_renderer import HtmlRenderer
+    kw = {'normalize_whitespace': nw}
+    if L is not None:
+        kw['max_line_length'] = L
+    with MarkdownRenderer(**kw) as r:
+        t = r.render(Document(s))
+    with MarkdownRenderer(**kw) as r:
+        t2 = r.render(Document(t))
+    with HtmlRenderer() as h:
+        d1, d2 = Document(s), Document(t)
+        h1, h2 = h.render(d1), h.render(d2)
+        f1, f2 = dict(d1.footnotes), dict(d2.footnotes)
+    if L is not None:
+        import re
+        h1, h2 = re.sub(r'\s+', ' ', h1), re.sub(r'\s+', ' ', h2)
+    return h1 == h2 and f1 == f2 and t2 == t
+
+
+def describe_round_trip(s, nw, L=None):
+    import mistletoe
+    from mistletoe import Document
+    kw = {'normalize_whitespace': nw}
+    if L is not None:
+        kw['max_line_length'] = L
+    with MarkdownRenderer(**kw) as r:
+        t = r.render(Document(s))
+    with MarkdownRenderer(**kw) as r:
+        t2 = r.render(Document(t))
+    return ('MarkdownRenderer(**%r): %r -> %r -> %r; HTML of the source %r, of the rendering %r'
+            % (kw, s, t, t2, mistletoe.markdown(s), mistletoe.markdown(t)))
+
+
+def m5_replay(c1, nw):
+    if chr(c1) not in SP or nw != P('nw'):
+        return False, 'pre-condition false'
+    s = SPELLINGS[P('sk')].format(chr(c1))
+    try:
+        ok = round_trip_ok(s, nw)
+    except Exception as e:
+        return True, 'round trip of %r raised %s: %s' % (s, type(e).__name__, e)
+    return (not ok), describe_round_trip(s, nw)
+
+
+@lemma('M5.spellings', 'C09', replay=m5_replay, quick=[{'sk': k, 'nw': n} for k in sorted(SPELLINGS) for n in (False, True)], timeout=900, per_path=120,
+       covers=['markdown_renderer.py:MarkdownRenderer.render', 'markdown_renderer.py:MarkdownRenderer.render_thematic_break', 'markdown_renderer.py:MarkdownRenderer.render_heading',
+               'markdown_renderer.py:MarkdownRenderer.render_setext_heading', 'markdown_renderer.py:MarkdownRenderer.render_list_item', 'markdown_renderer.py:MarkdownRenderer.render_table',
+               'markdown_renderer.py:MarkdownRenderer.render_link_reference_definition'],
+       note='one skeleton per construct with the SAME symbolic character (16-character spelling alphabet) at the two or three places where its spelling may vary, '
+            'normalize_whitespace per job: identical HTML and link definitions after the round trip, second rendering is the identity')
+def m5_spellings(c1: int, nw: bool) -> bool:
+    """
+    pre: fixed(nw, 'nw') and all_in(SP, 1, c1)
+    post: _
+    """
+    return round_trip_ok(SPELLINGS[P('sk')].format(chr(c1)), nw)
+
+
 def witness_empty_fence():
     """(fixed) an empty fenced code block gained a line in the round trip"""
     import mistletoe
